@@ -10,6 +10,7 @@ import json, os, sys
 
 HERE = os.path.dirname(os.path.dirname(os.path.abspath(__file__)))
 ANGLES = {
+    "9": None,
     "8": ("This time start from the HISTORY of the library: run `git -C <your worktree> log --oneline | head -150` and read the commits whose message "
           "starts with 'fix:' that touch the code this property is about (`git show <commit>`). Each of them repaired a defect for a FAMILY of "
           "inputs. Craft changes that look like later maintenance of that repaired code (a simplification, a merge of two branches, a 'faster' "
@@ -66,7 +67,7 @@ def main():
         o = os.path.join(out, pid)
         os.makedirs(o, exist_ok=True)
         text = TEMPLATE.format(w=w, o=o, pid=pid, title=p["title"], statement=p["statement"], quant=p["quantifier"]["text"],
-                               angle=ANGLES[rnd], earlier="\n".join(earlier.get(pid, [])), nth={"5": "FIFTH", "6": "SIXTH", "7": "SEVENTH", "8": "EIGHTH"}[rnd])
+                               angle=ANGLES[rnd] or (ANGLES["8"] + " The fix commits that earlier changes of this kind already undid are named in the list below ('partially undoes fix <hash>'): pick OTHER fix commits, or a different member of the family if only few commits touch this code."), earlier="\n".join(earlier.get(pid, [])), nth={"5": "FIFTH", "6": "SIXTH", "7": "SEVENTH", "8": "EIGHTH", "9": "NINTH"}[rnd])
         open(os.path.join(o, "prompt.txt"), "w").write(text)
     print(len(props), "prompts in", out)
 
